@@ -21,6 +21,16 @@ def main(argv):
             print('unknown property', prop)
             return 2
         meta = REGISTRY[prop]
+        if prop in ('C03', 'C04', 'C13', 'C14'):
+            # stub conformance first: these checks rely on the model file system
+            import subprocess
+            c = subprocess.run([sys.executable, os.path.join(HERE, 'tools', 'conformance.py')], capture_output=True, text=True)
+            print(c.stdout.strip()[-1500:])
+            if c.returncode != 0:
+                print('INCONCLUSIVE: model file system and real file system disagree (stub conformance); %s not decided' % prop)
+                print(c.stderr[-800:])
+                return 2
+            meta = dict(meta, assumptions=list(meta.get('assumptions', [])) + ['stub conformance run: ' + c.stdout.strip().splitlines()[-1]])
         return runner.run_check(prop, tier, meta['module'], meta)
     if len(argv) >= 2 and argv[0] == 'replay':
         runner._setup_path()
